@@ -164,7 +164,10 @@ let all_candidates (st : Tgen.st) (prog : program) : cand list =
     let rec go pre env rest =
       let here op it = emit op c (k (List.rev_append pre (it :: rest))) (WI it) in
       (* at every position but after the last item: assign to each visible const name *)
-      if rest <> [] then begin
+      (* never between two consecutive functions: they are declared together (one run), an item
+         between them would change what the first one sees -- not a single fault *)
+      let splits_run = (match pre, rest with IFunc _ :: _, IFunc _ :: _ -> true | _ -> false) in
+      if rest <> [] && not splits_run then begin
         let seen = Hashtbl.create 8 in
         List.iter (fun (x, kd) ->
             if not (Hashtbl.mem seen x) then begin
